@@ -602,6 +602,11 @@ class Producer(object):
                         # errback; callback(exc) would report success.
                         f = Failure(f)
                     _deliver_result(deferredsByTopicPart[t_and_p], f)
+                if self.req_acks == PRODUCER_ACK_NOT_REQUIRED:
+                    # No acknowledgement will ever arrive: whatever did not
+                    # fail was handed to its connection, which is all the
+                    # success there is. Don't leave those callers waiting.
+                    _deliver_result(deferredsByTopicPart.values(), None)
                 return
             # Retries remain!  Schedule one...
             d = Deferred()
